@@ -37,12 +37,13 @@ func TestMain(m *testing.M) {
 
 // Case is the JSON replay unit: exactly one of TCP / UDP is set.
 type Case struct {
-	TCP  *TCPCase     `json:"tcp,omitempty"`
-	UDP  *UDPCase     `json:"udp,omitempty"`
-	VC   *VConnCase   `json:"vconn,omitempty"`
-	BP   *BPCase      `json:"backpressure,omitempty"`
-	Long *LongCase    `json:"long,omitempty"`
-	RT   *RealTCPCase `json:"real_tcp,omitempty"`
+	TCP   *TCPCase     `json:"tcp,omitempty"`
+	UDP   *UDPCase     `json:"udp,omitempty"`
+	VC    *VConnCase   `json:"vconn,omitempty"`
+	BP    *BPCase      `json:"backpressure,omitempty"`
+	Long  *LongCase    `json:"long,omitempty"`
+	RT    *RealTCPCase `json:"real_tcp,omitempty"`
+	Socks *SocksCase   `json:"socks5,omitempty"`
 }
 
 // failure is what an oracle returns; timing says that the verdict rests on a bounded
@@ -261,6 +262,9 @@ func run(c Case) (*failure, string, bool, string) {
 	if c.RT != nil {
 		return runRealTCP(c.RT)
 	}
+	if c.Socks != nil {
+		return runSocks(*c.Socks), "tcp:socks5-listener/connect-session-beyond-handshake-deadline", true, "socks/long"
+	}
 	if c.Long != nil {
 		return runLong(*c.Long), "tcp:long-lived-half-closed/first-to-close=" + c.Long.FirstToClose, true, "long/" + c.Long.FirstToClose
 	}
@@ -354,7 +358,7 @@ func TestReplay(t *testing.T) {
 	if _, err := vkit.LoadReplay(path, &c); err != nil {
 		t.Fatalf("bad replay file: %v", err)
 	}
-	if c.TCP == nil && c.UDP == nil && c.VC == nil && c.BP == nil && c.Long == nil && c.RT == nil {
+	if c.TCP == nil && c.UDP == nil && c.VC == nil && c.BP == nil && c.Long == nil && c.RT == nil && c.Socks == nil {
 		t.Fatalf("replay file holds neither a tcp nor a udp case")
 	}
 	check(t, c)
